@@ -40,8 +40,12 @@ TIERS = {
     'quick': dict(shards=8, programs=250, thread_cases=25, timeout_s=600, case_timeout_s=300),
     'thorough': dict(shards=16, programs=2000, thread_cases=200, timeout_s=3000, case_timeout_s=300),
 }
-RULE = ('case = one random well-nested program of `with` blocks over the 23 scoped '
+RULE = ('case = one random well-nested program of `with` blocks over the 24 scoped '
         'context managers of scopes.MANAGERS (all documented argument values, '
+        'incl. DynamicEvaluationContext.apply over collected / external, '
+        'positional / named search spaces with list and DNA decisions, whose '
+        'validating exit raises when the body leaves decisions unused: the block '
+        'is then left by the exception of the exit path itself, '
         'nesting depth <= 6, different managers mixed; dict-valued options of '
         'view_options / mutable values of thread_local_arg_scope and coding.context, '
         'the same option refined at several levels), `pg.view(..., **kwargs)` calls '
@@ -67,6 +71,7 @@ RULE = ('case = one random well-nested program of `with` blocks over the 23 scop
         'blocks entered, nesting depth >= 2 and at least 2 different managers; '
         'distinct by the nested sequence of (manager, exit kind).')
 REQUIRED_COUNTERS = ['model_checks', 'restore_checks', 'restore_checks_exc_exit',
+                     'restore_checks_exit_raised', 'first_statement_checks',
                      'yielded_uses', 'argument_unchanged_checks', 'view_calls',
                      'events_raised', 'scopes_entered_late',
                      'nested_same_dict_option',
@@ -114,6 +119,7 @@ MAX_DEPTH = 6
 P_USE = 0.2          # a use of an enclosing block's yielded object per statement
 P_EVENT = 0.12       # an event (scopes.EVENTS) per statement
 P_EARLY = 0.3        # the scope object of a `with` is created ahead of the statement
+SAME_CONTEXT_NESTING = True   # `ctx.apply` inside a block of the same context object
 
 
 class _Abort(BaseException):
@@ -146,7 +152,7 @@ def available(spec, disabled=()):
       continue
     if m.scope == 'process' and not spec.process_ok:
       continue
-    if name == 'dynamic_evaluate' and spec.foreign_process_de:
+    if name in ('dynamic_evaluate', S.APPLY) and spec.foreign_process_de:
       continue
     out.append(name)
   return out
@@ -205,7 +211,11 @@ def gen_program(rng, spec, disabled=()):
       else:
         name = rng.choice(names)
       m = S.MANAGERS[name]
+      if not m.usable(state, spec):
+        continue
       args = m.gen(rng, spec, state)
+      if name == S.APPLY and args['ctx'] in state['dectx'] and not SAME_CONTEXT_NESTING:
+        continue
       if name == 'dynamic_evaluate' and not args.get('invalid'):
         mixed = ((args['per_thread'] and state['de_glob'] is not None) or
                  (not args['per_thread'] and state['de_tls'] != S.NOSCOPE))
@@ -325,6 +335,10 @@ def show(nodes, indent=0):
   return out
 
 
+def m_exit_raises(n):
+  return S.MANAGERS[n['m']].exit_raises(n['a'])
+
+
 # ---------------------------------------------------------------------------
 # Execution of one program against library and model.
 # ---------------------------------------------------------------------------
@@ -370,6 +384,8 @@ class Exec:
       if o.mgr.split('[')[0] in self.muted_mgrs:
         continue
       if o.intrusive and o.expect(st, env) == S.DONTCARE:
+        continue
+      if o.perturbs is not None and o.perturbs(st):
         continue
       try:
         snap[o.name] = o.observe(env)
@@ -458,6 +474,7 @@ class Exec:
         if 'body' in n:
           index(n['body'])
     index(nodes)
+    S.prepare_contexts(self.env, nodes)    # (in the default state)
     snap = self.snapshot(full)
     self.check_model(snap, 'default-state')
     try:
@@ -547,6 +564,8 @@ class Exec:
     ev = S.EVENTS[n['e']]
     if ev.mgr in self.muted_mgrs:
       return
+    if ev.perturbs is not None and ev.perturbs(self.state):
+      return
     before = self.snapshot(False, False, ev.focus)
     self.check_model(before, 'effective-inside')
     self.counters['events'] += 1
@@ -623,7 +642,7 @@ class Exec:
     args0 = copy.deepcopy(args)
     label = m.label(self.state, args, env)
     heavy = n['heavy']
-    fresh = m.scope == 'process' or n['m'] == 'dynamic_evaluate'
+    fresh = m.scope == 'process' or n['m'] in ('dynamic_evaluate', S.APPLY)
     fresh = fresh and env.solo and not self.concurrent
     before = self.snapshot(heavy, fresh, n['m'])
     self.check_model(before, 'effective-inside')
@@ -665,6 +684,16 @@ class Exec:
         self.max_depth = max(self.max_depth, depth)
         self.managers_entered.add(n['m'])
         self.hook()
+        if m.first is not None and not self.setting_muted(n['m']):
+          # the first statement of the block: the documented use of the setting
+          self.counters['first_statement_checks'] += 1
+          self.counters['model_checks'] += 1
+          got_f, exp_f = m.first(args, env), m.first_expect(self.state, args, env)
+          if got_f != exp_f:
+            self.report('effective-inside', label, f'first statement of `with '
+                        f'{n["m"]}({args})`: observed {got_f!r}, model {exp_f!r}')
+        elif m.first is not None:
+          m.first(args, env)
         inside = self.snapshot(heavy, False, n['m'])
         exp_y = m.yielded(self.state, args, env)
         if exp_y != S.DONTCARE and not self.setting_muted(n['m']):
@@ -692,12 +721,16 @@ class Exec:
         env.left_timeits.append(env.timeits.pop())
       if self.shared is not None:
         self.shared.depth[env.tid] = depth - 1
-      if n['m'] == 'dynamic_evaluate' and args['per_thread']:
+      if (n['m'] == 'dynamic_evaluate' and args['per_thread']) or n['m'] == S.APPLY:
         self.had_thread_de = True
     self.hook()
     after = self.snapshot(heavy, fresh, n['m'])
     exit_kind = ('enter-raised' if not entered else
-                 'exception' if body_exc is not None else 'normal')
+                 'exception' if body_exc is not None else
+                 # the manager's validating exit raised: the block was left by
+                 # an exception although its body finished
+                 'exit-raised' if out_exc is not None and m.exit_raises(args)
+                 else 'normal')
     self.shape.append((label, exit_kind) if created_at is None
                       else (label, exit_kind, n.get('early')))
     self.created_note = '' if created_at is None else (
@@ -724,7 +757,8 @@ class Exec:
       self.counters['restore_checks'] += 1
       self.counters['restore_checks_' + {'normal': 'normal_exit', 'exception':
                                          'exc_exit', 'enter-raised':
-                                         'enter_raised'}[exit_kind]] += 1
+                                         'enter_raised', 'exit-raised':
+                                         'exit_raised'}[exit_kind]] += 1
       diff = [(k, before[k], after[k]) for k in before
               if k in after and before[k] != after[k] and k not in self.muted]
       self.counters['restore_observer_comparisons'] += len(before)
@@ -776,8 +810,9 @@ class Exec:
       o = S.OBS_BY_NAME.get(name)
       by_mgr.setdefault(o.mgr if o else name, []).append((k, b, a))
     own = n['m']
-    # (the exit kind is in the detail; only a raising enter is a different mechanism)
-    suffix = '!enter-raised' if exit_kind == 'enter-raised' else ''
+    # (the exit kind is in the detail; only a raising enter and a raising
+    # validating exit are different mechanisms)
+    suffix = ('!' + exit_kind) if exit_kind in ('enter-raised', 'exit-raised') else ''
     if self.had_thread_de and 'dynamic_evaluate[process]' in by_mgr:
       # leaving a per-thread block changed whether process-wide blocks work
       # (seen at this exit or, if the probe was a don't-care there, at the
@@ -841,6 +876,22 @@ class Exec:
         self.report('exception-flow', label, f'body raised {body_exc!r}, block '
                     f'raised {out_exc!r}')
       return out_exc if out_exc is not None else body_exc
+    if m_exit_raises(n):
+      # validating exit: documented for a block whose body finished; whether
+      # it also runs (and masks) when a non-`Exception` leaves the body is open
+      own = out_exc is not None and out_exc is not body_exc \
+          and not isinstance(out_exc, (S.E1, S.E2, S.E3))
+      if body_exc is None:
+        self.counters['validating_exit_expected'] += 1
+        if own:
+          self.counters['validating_exit_raised'] += 1
+          return None              # (the program catches it at the statement)
+        if out_exc is not None:
+          self.report('exception-flow', label,
+                      f'normal body, block raised {out_exc!r}')
+        return None
+      if own and not isinstance(body_exc, Exception):
+        return body_exc
     if out_exc is not body_exc:
       self.report('exception-flow', label,
                   f'body raised {body_exc!r}, block raised {out_exc!r}')
